@@ -221,3 +221,66 @@ def notes_of_key(name):
 def steps_of(names):
     """Semitone steps between consecutive names (mod 12, ascending)."""
     return [(pc(b) - pc(a)) % 12 for a, b in zip(names, names[1:])]
+
+
+# ---------------------------------------------------------------------------------- scales
+MODE_PATTERNS = {
+    "Ionian": [2, 2, 1, 2, 2, 2, 1],
+    "Dorian": [2, 1, 2, 2, 2, 1, 2],
+    "Phrygian": [1, 2, 2, 2, 1, 2, 2],
+    "Lydian": [2, 2, 2, 1, 2, 2, 1],
+    "Mixolydian": [2, 2, 1, 2, 2, 1, 2],
+    "Aeolian": [2, 1, 2, 2, 1, 2, 2],
+    "Locrian": [1, 2, 2, 1, 2, 2, 2],
+}
+# Diatonic(note, semitone positions): position p means the p-th step of the scale is a semitone
+DIATONIC_SEMITONES = {(3, 7): "Ionian", (2, 6): "Dorian", (1, 5): "Phrygian", (4, 7): "Lydian",
+                      (3, 6): "Mixolydian", (2, 5): "Aeolian", (1, 4): "Locrian"}
+SCALE_PATTERNS = dict(MODE_PATTERNS)
+SCALE_PATTERNS.update({
+    "Major": [2, 2, 1, 2, 2, 2, 1],
+    "HarmonicMajor": [2, 2, 1, 2, 1, 3, 1],
+    "NaturalMinor": [2, 1, 2, 2, 1, 2, 2],
+    "HarmonicMinor": [2, 1, 2, 2, 1, 3, 1],
+    "MelodicMinor": [2, 1, 2, 2, 2, 2, 1],
+    "Bachian": [2, 1, 2, 2, 2, 2, 1],
+    "MinorNeapolitan": [1, 2, 2, 2, 1, 3, 1],
+    "WholeTone": [2] * 6,
+    "Octatonic": [2, 1] * 4,
+    "Chromatic": [1] * 12,
+})
+# descending forms that are not the reverse of the ascending form: pattern of the *reversed* descending list
+DESCENDING_PATTERNS = {
+    "MelodicMinor": [2, 1, 2, 2, 1, 2, 2],          # natural minor
+    "MinorNeapolitan": [1, 2, 2, 2, 1, 2, 2],        # natural minor with the lowered second
+}
+MAJOR_FAMILY = [("Major", "major"), ("HarmonicMajor", "harmonic major")]
+MINOR_FAMILY = [("NaturalMinor", "natural minor"), ("HarmonicMinor", "harmonic minor"),
+                ("MelodicMinor", "melodic minor"), ("Bachian", "Bachian"),
+                ("MinorNeapolitan", "minor Neapolitan")]
+
+
+def spell_scale(tonic, pattern):
+    """Heptatonic scale on consecutive letters from tonic following the step pattern (one octave,
+    without the closing tonic); accidental counts are the ones of smallest magnitude."""
+    out = [tonic]
+    for s in pattern[:-1]:
+        prev = out[-1]
+        out.append(respell(li(prev) + 1, (pc(prev) + s) % 12, near=0))
+    return out
+
+
+def recognisable_scales():
+    """[(name, ascending name set, descending name set)] for the 15 key pairs x the major- and
+    minor-family scale types, built from the model only."""
+    out = []
+    for sig in range(-7, 8):
+        mt, nt = major_tonic(sig), minor_tonic(sig)
+        for cls, label in MAJOR_FAMILY:
+            a = set(spell_scale(mt, SCALE_PATTERNS[cls]))
+            out.append((mt + " " + label, a, a))
+        for cls, label in MINOR_FAMILY:
+            a = set(spell_scale(nt, SCALE_PATTERNS[cls]))
+            d = set(spell_scale(nt, DESCENDING_PATTERNS[cls])) if cls in DESCENDING_PATTERNS else a
+            out.append((nt + " " + label, a, d))
+    return out
